@@ -1,18 +1,10 @@
 import SmtpV.Model.Text
+import SmtpV.Spec.Events
 /-!
 Model of reply rendering: `Conn.writeResponse`, `writeError`, `dataErrorToStatus` (conn.go).
 -/
 namespace SmtpV.Reply
-open SmtpV SmtpV.Text
-
-structure Enh where
-  a : Int
-  b : Int
-  c : Int
-deriving DecidableEq, Repr, Inhabited
-
-def noEnh : Enh := ⟨-1, -1, -1⟩       -- NoEnhancedCode
-def notSet : Enh := ⟨0, 0, 0⟩         -- EnhancedCodeNotSet
+open SmtpV SmtpV.Text SmtpV.Spec
 
 /-- the enhanced code actually sent: `EnhancedCodeNotSet` becomes `X.0.0` of the reply's class for
     classes 2, 4, 5 and is dropped otherwise -/
@@ -39,14 +31,6 @@ def render (code : Nat) (enh : Enh) (texts : List Bytes) : Bytes :=
     (match ls.getLast? with
      | some l => renderLine code SP e l
      | none => [])
-
-/-- a backend result -/
-inductive BRes
-  | ok
-  | se (code : Nat) (enh : Enh) (msg : Bytes)     -- *SMTPError
-  | er (msg : Bytes)                              -- any other error, with its Error() text
-  | panic
-deriving DecidableEq, Repr, Inhabited
 
 /-- `writeError(code, enh, err)` -/
 def renderError (code : Nat) (enh : Enh) : BRes → Bytes
